@@ -664,9 +664,10 @@ impl Mass for Locomotive {
         };
         #[cfg(feature = "logging")]
         log::info!("Updating `force_max` to correspond to new mass.");
+        // read `mu` directly: `self.mu()` would validate it against the `force_max` that is
+        // about to be replaced
         self.force_max = self
-            .mu()
-            .with_context(|| format_dbg!())?
+            .mu
             .with_context(|| format!("{}\nExpected `mu` to be set", format_dbg!()))?
             * self
                 .mass()?
@@ -712,7 +713,7 @@ impl Locomotive {
                 .set_mass(
                     Some(
                         force_max
-                            / (self.mu().with_context(|| format_dbg!())?.with_context(|| {
+                            / (self.mu.with_context(|| {
                                 format_dbg!("Expected traction coefficient to be set.")
                             })? * uc::ACC_GRAV),
                     ),
